@@ -13,12 +13,32 @@ import common as C
 
 C.reexec_under_impl_python()
 import rd_common as R
+import hashlib
+
+
+def _h(txt):
+    """8-byte digest of a canonical JSON text (distinctness is counted on digests)"""
+    return hashlib.blake2b(txt.encode(), digest_size=8).digest()
 
 CID = "C03"
 VO = ["props/C03.vo"] + R.VO_MODEL
 S_ADDRAW, S_YEARDAY, S_NLYEARDAY = 27, 25, 26
 SPEC_N_LIMIT = 2000          # the counting spec walks 7*|n| days: only evaluated for |n| <= this
 
+
+# ------------------------------------------------------------------ known findings
+
+def m_yearday366_leap(payload):
+    """F-C03-yearday366: relativedelta(yearday=366) alone, added to a date of a leap year"""
+    import calendar
+    inp = payload.get("input") or {}
+    kw = inp.get("kw") or {}
+    v = (inp.get("dt") or {}).get("v") or []
+    return (payload.get("kind", "").startswith("yearday/nlyearday") and kw == {"yearday": 366}
+            and len(v) >= 2 and calendar.isleap(v[1]))
+
+
+MATCHERS = {"m_yearday366_leap": m_yearday366_leap}
 
 # ------------------------------------------------------------------ implementation side
 
@@ -180,7 +200,7 @@ def run_batch(cases, oracle, want_samples=0):
     hist, diffs, samples = {}, [], []
     cnt = {"evaluations": 0, "mk_compared": 0, "ops_compared": 0, "spec_compared": 0, "wf": 0,
            "impl_errors": 0, "model_diff": 0, "spec_diff": 0, "self_diff": 0, "skipped_unencodable": 0,
-           "raw_spec_compared": 0, "clipped": 0, "carried_year": 0, "weekday_moved": 0, "promoted": 0}
+           "raw_spec_compared": 0, "clipped": 0, "carried_year": 0, "promoted": 0, "yearday_compared": 0}
     nontrivial = set()
     # ---- phase 1: implementation + requests
     reqs, plan = [], []
@@ -233,13 +253,18 @@ def run_batch(cases, oracle, want_samples=0):
                         if R.fits(er):
                             s["raw"] = len(reqs); reqs.append((S_ADDRAW, er + edt))
                 if R.proj_is_int(pn) and R.fits(R.enc_proj(pn)):
-                    epn = R.enc_proj(pn)
                     s["neg"] = len(reqs); reqs.append((R.E_NEG, ep))
                     item["pn"] = pn
-                    s["wfneg"] = len(reqs); reqs.append((R.S_WF, epn))
-                    wn = pn[2]
-                    if wn is None or wn[1] is None or abs(wn[1]) <= SPEC_N_LIMIT:
-                        s["specneg"] = len(reqs); reqs.append((R.S_ADD, epn + edt))
+                # "subtracting a relativedelta equals adding its negation": the negation is taken on the
+                # SPEC side (every relative field of the normalised delta negated), not from the code's __neg__
+                sn = (tuple(-x for x in p[0][:7]) + (p[0][7],), p[1], p[2])
+                item["sn"] = sn
+                if w is None or w[1] is None or abs(w[1]) <= SPEC_N_LIMIT:
+                    s["specneg"] = len(reqs); reqs.append((R.S_ADD, R.enc_proj(sn) + edt))
+                # yearday / nlyearday alone: "set the yearday" = the n-th day of the operand's year
+                if set(kw) in ({"yearday"}, {"nlyearday"}) and R.is_int(list(kw.values())[0]):
+                    s["yday"] = len(reqs)
+                    reqs.append((S_YEARDAY if "yearday" in kw else S_NLYEARDAY, [dt.year, list(kw.values())[0]]))
         else:
             cnt["impl_errors"] += 1
         plan.append(item)
@@ -290,15 +315,27 @@ def run_batch(cases, oracle, want_samples=0):
                                        "from the keyword values (totals, before any carry)",
                                "input": inp(item, "add"), "delta": item["proj"], "impl": item["r_add"],
                                "spec_from_keywords": raw}, True))
-        if "specneg" in s and res[s["wfneg"]] == [1] and not reported:
+        if "specneg" in s and wf and not reported:
             specneg = res_of_opt(R.dec_opt_dt(res[s["specneg"]]))
             cnt["spec_compared"] += 1
             if collapse(item["r_sub"]) != specneg:
                 cnt["spec_diff"] += 1
                 reported = True
                 diffs.append(({"kind": "dt - delta differs from the documented result of adding the negation",
-                               "input": inp(item, "sub"), "delta": item["proj"], "negated": item["pn"],
+                               "input": inp(item, "sub"), "delta": item["proj"], "negated": item["sn"],
                                "impl": item["r_sub"], "spec": specneg}, True))
+        if "yday" in s and not reported:
+            yv = res[s["yday"]]
+            if yv[0] == 1:
+                cnt["yearday_compared"] = cnt.get("yearday_compared", 0) + 1
+                want = R.dt_proj(dt)
+                want = (want[0], yv[1], yv[2], yv[3]) + tuple(want[4:])
+                if item["r_add"] != ("ok", want):
+                    cnt["spec_diff"] += 1
+                    reported = True
+                    diffs.append(({"kind": "yearday/nlyearday does not select the n-th day of the operand's year",
+                                   "input": inp(item, "add"), "delta": item["proj"], "impl": item["r_add"],
+                                   "spec": ("ok", want)}, True))
         # (2) self-checking parts of the property on the implementation
         if item["r_radd"] != item["r_add"] and not reported:
             cnt["self_diff"] += 1
@@ -342,7 +379,7 @@ def run_batch(cases, oracle, want_samples=0):
         ra = item["r_add"]
         triv = ra[0] == "ok" and ra[1] == R.dt_proj(dt)
         if not triv:
-            nontrivial.add(json.dumps([R.kw_json(kw), R.dt_json(dt)], sort_keys=True, default=str))
+            nontrivial.add(_h(json.dumps([R.kw_json(kw), R.dt_json(dt)], sort_keys=True, default=str)))
         if ra[0] == "ok":
             v = item["v_add"]
             want_day = (d.day or dt.day)
@@ -427,7 +464,7 @@ def main():
         return replay(argv[argv.index("--replay") + 1])
     tier = C.tier_from_argv(argv)
     t0 = time.time()
-    verdict = C.Verdict(CID)
+    verdict = C.Verdict(CID, MATCHERS)
     build_err = None
     try:
         C.ensure_built([R.AREA], VO)
